@@ -221,15 +221,25 @@ fn exec(ctx: &mut Ctx, ev: &Ev, rng: &mut Rng) {
                 let vals: Vec<bool> = (0..1usize << n).map(|m| a.value(m)).collect();
                 let l1 = Lut::from(&a);
                 let l2 = Lut::from(a.clone());
-                (a.is_zero(), a.is_one(), a.num_cubes(), a.num_vars(), vals, l1, l2, ors)
+                // Clone routes: destinations of the same and of other arities, with smaller and larger term lists
+                let big: Vec<Ecube> = (0..ta.len() + tb.len() + 3).map(|k| Ecube::from_vars(&[k % (n + 2)], k % 2 == 0)).collect();
+                let dsts = vec![b.clone(), Soes::zero(n + 1), Soes::one(n + 2), Soes::from_cubes(n + 2, big.clone()), Soes::from_cubes(n + 3, big), Soes::zero(0)];
+                let routes = vmon::obs::clone_routes(&a, &dsts, &|x: &Soes, y: &Soes| {
+                    x.num_vars() == y.num_vars() && x.cubes() == y.cubes() && Lut::from(x) == Lut::from(y)
+                });
+                (a.is_zero(), a.is_one(), a.num_cubes(), a.num_vars(), vals, l1, l2, ors, routes)
             });
-            let (isz, iso, nc, nvars, vals, l1, l2, ors) = match r {
+            let (isz, iso, nc, nvars, vals, l1, l2, ors, routes) = match r {
                 Outcome::Returned(x) => x,
                 Outcome::Panicked(msg) => {
                     ctx.violate("no-panic", ev, "soes", format!("Soes operation panicked: {}", msg));
                     return;
                 }
             };
+            match routes {
+                Ok(k) => ctx.checked("soes-clone-routes", k as u64),
+                Err(route) => ctx.violate("soes-clone-routes", ev, "clone", format!("{} does not give a Soes equal to the source {:?} (n={})", route, ta, n)),
+            }
             let fa = or_esets(n, ta);
             let fb = or_esets(n, tb);
             ctx.check("soes-value-or", vals == fa, ev, "value", || format!("Soes::value differs from the OR of its terms {:?}", ta));
